@@ -11,6 +11,7 @@ mod s_c10;
 mod s_c13;
 mod selftest;
 mod t_c05;
+mod t_c07;
 mod t_c08;
 mod t_c09;
 mod t_c15;
@@ -25,6 +26,7 @@ pub fn t_catalogue(prop: &str) -> Option<Vec<tcommon::Scn>> {
   match prop {
     "C08" => Some(t_c08::scenarios()),
     "C05" => Some(t_c05::scenarios()),
+    "C07" => Some(t_c07::scenarios()),
     "C09" => Some(t_c09::scenarios()),
     "C15" => Some(t_c15::c15_scenarios()),
     "C16" => Some(t_c15::c16_scenarios()),
@@ -45,6 +47,15 @@ fn check(prop: &str, tier: &str) -> i32 {
       r.engine = "S+T".into();
       r.assumptions.extend(t_assumptions());
       tcommon::run_scenarios(&mut r, t_catalogue(prop).unwrap(), tier);
+      report::finish(r)
+    }
+    "C07" => {
+      let mut r = Report::new(prop, tier, "T+S");
+      r.assumptions = t_assumptions();
+      r.assumptions.push("single-threaded clause: the re-entrancy catalogue and a slice of the C01/C05/C06 spaces run under the facade's lock monitor (a same-thread re-acquisition is a self-deadlock)".into());
+      tcommon::run_scenarios(&mut r, t_catalogue(prop).unwrap(), tier);
+      t_c07::reentrancy(&mut r);
+      s_main::c07_slice(&mut r, tier);
       report::finish(r)
     }
     "C08" | "C09" | "C11" | "C12" | "C15" | "C16" | "C18" | "C19" => {
